@@ -34,6 +34,7 @@ def run(ctx):
     _shared_r4(ctx)
     _shared_r5(ctx)
     _round6(ctx)
+    _round7(ctx)
 
 
 def _run_main(ctx):
@@ -157,3 +158,11 @@ def _round6(ctx):
         A.include(ctx, r, 'c01', 'R01.2')
         A.include(ctx, r, 'c01', 'R01.3')
         A.include(ctx, r, 'c01', 'R01.7')
+
+
+def _round7(ctx):
+    """Found by seeding round 7 (minimal one-line mutations)."""
+    from rules import arms as A
+    with ctx.rule('R02.9', "the message a caller builds is the message published: Publish's constructor helpers put each argument into the field of its name", floor=9) as r:
+        A.setters_and_ctors(ctx, r, 'exchange::Publish', consts={'new': {'mandatory': 'false', 'immediate': 'false', 'properties': '<amq_protocol::protocol::basic::AMQPProperties as std::default::Default>::default()'},
+                                                                 'with_properties': {'mandatory': 'false', 'immediate': 'false'}})
